@@ -11,6 +11,7 @@ import (
 	"reflect"
 	"runtime"
 	"strings"
+	"sync"
 	"time"
 
 	"github.com/bitcoin-sv/block-headers-service/internal/chaincfg/chainhash"
@@ -161,9 +162,10 @@ func canonMsg(m wire.Message) string {
 }
 
 type wireSim struct {
-	r   *Run
-	ctr uint64
-	ebs uint32
+	r         *Run
+	ctr       uint64
+	ebs       uint32
+	forceKind string // a directed fault kind (race class)
 }
 
 func (s *wireSim) hash() chainhash.Hash {
@@ -396,11 +398,144 @@ func wiresimExec(r *Run) {
 		fk := s.faultCheck(m, frame, pver, bsvnet)
 		faultsSeen[fk] = true
 	}
+	s.sharedScratchProbe(bsvnet)
+	if r.Opt["race"] == "1" {
+		// every run of this class carries its own hostile frames (so that a report replays from this run's tape
+		// alone, whatever earlier runs of the worker process left behind): two directed ones, then the goroutines
+		for i := 0; i < 2; i++ {
+			pver := wirePvers[t.Pick([]int{40, 10, 10, 10, 10, 10, 10}, "pver")]
+			if m := s.genMessage(pver); m != nil {
+				var buf bytes.Buffer
+				if err := wire.WriteMessage(&buf, m, pver, bsvnet); err == nil {
+					s.forceKind = []string{"short-payload", "truncate", "read-error"}[t.Draw(3, "race-fault")]
+					s.faultCheck(m, buf.Bytes(), pver, bsvnet)
+					s.forceKind = ""
+				}
+			}
+		}
+		s.concurrentCodec(bsvnet)
+	}
 	r.Shape = r.Trace
 	if faulty {
 		r.Nontrivial = len(faultsSeen) >= 1
 	} else {
 		r.Nontrivial = len(kindsSeen) >= 2
+	}
+}
+
+// reentrantWriter is a second user of the codec that gets its turn in the middle of a write of the first one: while the
+// encoder is inside Write (it may be holding scratch memory it took from a pool shared by the whole process) another
+// message is encoded and decoded, as a second peer's goroutine would do at that very moment. The bytes handed to
+// Write must not change under the writer's hands.
+type reentrantWriter struct {
+	out     bytes.Buffer
+	inside  bool
+	changed string
+	net     wire.BitcoinNet
+	k       uint64
+}
+
+func (w *reentrantWriter) Write(p []byte) (int, error) {
+	snap := append([]byte{}, p...)
+	if !w.inside {
+		w.inside = true
+		w.k++
+		var b bytes.Buffer
+		other := wire.NewMsgPong(0xa5a5a5a500000000 | w.k)
+		if err := wire.WriteMessage(&b, other, wire.ProtocolVersion, w.net); err == nil {
+			_, _, _ = wire.ReadMessage(&b, wire.ProtocolVersion, w.net)
+		}
+		w.inside = false
+	}
+	if !bytes.Equal(snap, p) && w.changed == "" {
+		w.changed = fmt.Sprintf("%x became %x", snap, p)
+	}
+	return w.out.Write(p)
+}
+
+// sharedScratchProbe: after whatever this run (and earlier runs of the process) fed to the decoder, two users of the
+// codec at once still have to get their own bytes.
+func (s *wireSim) sharedScratchProbe(bsvnet wire.BitcoinNet) {
+	r := s.r
+	nonce := uint64(0x1111111100000000) | uint64(r.Step)
+	inv := wire.NewMsgInv()
+	hh := s.hash()
+	_ = inv.AddInvVect(wire.NewInvVect(wire.InvTypeBlock, &hh))
+	for _, m := range []wire.Message{wire.NewMsgPing(nonce), inv} {
+		w := &reentrantWriter{net: bsvnet}
+		var err error
+		switch x := m.(type) {
+		case *wire.MsgPing:
+			err = x.BsvEncode(w, wire.ProtocolVersion, wire.BaseEncoding)
+		case *wire.MsgInv:
+			err = x.BsvEncode(w, wire.ProtocolVersion, wire.BaseEncoding)
+		}
+		if err != nil {
+			r.Fail("C14", "encode-refused", m.Command()+"|two-users", "encoding %s failed: %v", m.Command(), err)
+		}
+		var plain bytes.Buffer
+		switch x := m.(type) {
+		case *wire.MsgPing:
+			_ = x.BsvEncode(&plain, wire.ProtocolVersion, wire.BaseEncoding)
+		case *wire.MsgInv:
+			_ = x.BsvEncode(&plain, wire.ProtocolVersion, wire.BaseEncoding)
+		}
+		if w.changed != "" || !bytes.Equal(w.out.Bytes(), plain.Bytes()) {
+			r.Fail("C14", "shared-scratch", m.Command(), "while one %s was being encoded a second user of the codec encoded and decoded a pong: the first one's bytes changed under its hands (%s); payload %x, alone it encodes to %x", m.Command(), w.changed, w.out.Bytes(), plain.Bytes())
+		}
+	}
+	r.Probe("two-codec-users")
+}
+
+// concurrentCodec (race class): what the per-peer reader and writer goroutines of the service do all the time - several
+// goroutines encode and decode at once, with nothing ordering them. Whatever the (possibly hostile) frames decoded
+// before did to the codec's shared state, these goroutines must not touch the same memory: the race detector
+// decides (its verdict is a happens-before property, not one of physical overlap), and every round trip must
+// still give back its own values.
+func (s *wireSim) concurrentCodec(bsvnet wire.BitcoinNet) {
+	r := s.r
+	r.Probe("concurrent-codec")
+	var wg sync.WaitGroup
+	bad := make([]string, 4)
+	for g := 0; g < 4; g++ {
+		wg.Add(1)
+		go func(g int) {
+			defer wg.Done()
+			for k := 0; k < 40; k++ {
+				nonce := uint64(g)<<56 | uint64(k)<<8 | 0x5a
+				var msg wire.Message = wire.NewMsgPing(nonce)
+				if (g+k)%2 == 1 {
+					msg = wire.NewMsgPong(nonce)
+				}
+				var buf bytes.Buffer
+				if err := wire.WriteMessage(&buf, msg, wire.ProtocolVersion, bsvnet); err != nil {
+					bad[g] = fmt.Sprintf("encode: %v", err)
+					return
+				}
+				back, _, err := wire.ReadMessage(&buf, wire.ProtocolVersion, bsvnet)
+				if err != nil {
+					bad[g] = fmt.Sprintf("decode of an own frame: %v", err)
+					return
+				}
+				var got uint64
+				switch m := back.(type) {
+				case *wire.MsgPing:
+					got = m.Nonce
+				case *wire.MsgPong:
+					got = m.Nonce
+				}
+				if got != nonce {
+					bad[g] = fmt.Sprintf("round trip of nonce %016x came back as %016x", nonce, got)
+					return
+				}
+			}
+		}(g)
+	}
+	wg.Wait()
+	for g, b := range bad {
+		if b != "" {
+			r.Fail("C14", "concurrent-codec", "roundtrip", "goroutine %d of 4 encoding and decoding at once: %s", g, b)
+		}
 	}
 }
 
@@ -501,8 +636,12 @@ func (s *wireSim) faultCheck(m wire.Message, valid []byte, pver uint32, bsvnet w
 	cmd := m.Command()
 	frame := append([]byte{}, valid...)
 	mustReject := ""
-	kind := []string{"truncate", "bitflip", "length-inflate", "count-inflate", "splice", "wrong-magic", "bad-checksum", "unknown-command", "oversize-length", "random-bytes", "read-error", "noncanonical-varint", "ignored-payload-command", "command-padding"}[t.Pick([]int{14, 14, 8, 14, 6, 6, 6, 6, 6, 8, 6, 4, 4, 8}, "fault-kind")]
+	kind := []string{"truncate", "bitflip", "length-inflate", "count-inflate", "splice", "wrong-magic", "bad-checksum", "unknown-command", "oversize-length", "random-bytes", "read-error", "noncanonical-varint", "ignored-payload-command", "command-padding", "short-payload"}[t.Pick([]int{14, 14, 8, 14, 6, 6, 6, 6, 6, 8, 6, 4, 4, 8, 10}, "fault-kind")]
+	if s.forceKind != "" {
+		kind = s.forceKind
+	}
 	errAt := -1
+	followUp := false // a complete frame that is refused from its header: the stream goes on behind it
 	switch kind {
 	case "truncate":
 		frame = frame[:t.Draw(len(frame), "cut")]
@@ -565,9 +704,23 @@ func (s *wireSim) faultCheck(m wire.Message, valid []byte, pver uint32, bsvnet w
 		pos := 4 + nameLen + 1 + t.Draw(12-nameLen-1, "pad-pos")
 		frame[pos] = byte(1 + t.Draw(255, "pad-byte"))
 		mustReject = "non-zero bytes in the padding of the command field (unknown command)"
+	case "short-payload":
+		// a well-formed frame (length and checksum agree with what is there) whose payload ends inside a field
+		if len(frame) <= 25 {
+			kind = "bad-checksum"
+			frame[20] ^= 0xff
+			mustReject = "bad checksum"
+			break
+		}
+		cut := 24 + t.Draw(len(frame)-24, "short-at")
+		frame = frame[:cut]
+		binary.LittleEndian.PutUint32(frame[16:20], uint32(cut-24))
+		fixChecksum(frame)
+		// (a shorter payload may still be a complete message of fewer elements: no verdict on acceptance)
 	case "wrong-magic":
 		binary.LittleEndian.PutUint32(frame[0:4], []uint32{uint32(wire.TestNet), uint32(wire.TestNet3), 0, 0xffffffff, uint32(wire.MainNet) ^ 1}[t.Draw(5, "magic")])
 		mustReject = "wrong network magic"
+		followUp = true
 	case "bad-checksum":
 		frame[20+t.Draw(4, "ck-byte")] ^= byte(1 + t.Draw(255, "ck-xor"))
 		mustReject = "bad checksum"
@@ -576,6 +729,17 @@ func (s *wireSim) faultCheck(m wire.Message, valid []byte, pver uint32, bsvnet w
 		copy(c[:], []string{"bogus", "VERSION", "getheader", "\xff\xfe", "headersXYZ123"}[t.Draw(5, "cmd")])
 		copy(frame[4:16], c[:])
 		mustReject = "unknown command"
+		// the payload of a refused frame is drained in portions: lengths around the portion size and its multiples
+		if t.Chance(1, 2, "unknown-cmd-filler") {
+			n := []int{0, 1, 10239, 10240, 10241, 20479, 20480, 20481, 30720, 40960, 51200}[t.Draw(11, "filler-len")]
+			frame = append(frame[:24:24], make([]byte, n)...)
+			for i := 24; i < len(frame); i++ {
+				frame[i] = byte(i * 7)
+			}
+			binary.LittleEndian.PutUint32(frame[16:20], uint32(n))
+			fixChecksum(frame)
+		}
+		followUp = true
 	case "oversize-length":
 		overall := uint32(uint64(s.ebs/1000000) * 1024 * 1024 * 2)
 		binary.LittleEndian.PutUint32(frame[16:20], []uint32{overall + 1, 0xffffffff, 0x80000000, uint32(ownLimit(cmd, pver, s.ebs)) + 1}[t.Draw(4, "oversize")])
@@ -628,9 +792,32 @@ func (s *wireSim) faultCheck(m wire.Message, valid []byte, pver uint32, bsvnet w
 		cmd = strings.TrimRight(string(c[:]), "\x00")
 	}
 	r.Fault(kind)
+	frameLen := len(frame)
+	var ping *wire.MsgPing
+	if followUp {
+		// the peer's next message follows on the same stream
+		ping = wire.NewMsgPing(uint64(0xfeed0000) + uint64(t.Draw(1<<16, "follow-nonce")))
+		var fb bytes.Buffer
+		if err := wire.WriteMessage(&fb, ping, wire.ProtocolVersion, bsvnet); err != nil {
+			Infra("encode ping: %v", err)
+		}
+		frame = append(frame, fb.Bytes()...)
+	}
 	st := s.stream(frame, "fault")
 	st.errAt = errAt
 	res := decode(st, pver, bsvnet)
+	if followUp && res.err != nil && !res.hang && res.pan == nil {
+		if st.pos != frameLen {
+			r.Fail("C14", "refused-frame-not-consumed", fmt.Sprintf("%s|len%%10240=%d", kind, (frameLen-24)%10240), "a complete %s frame of %d payload bytes was refused (%v) with %d bytes of the stream consumed, the frame has %d: the next message starts in the wrong place", kind, frameLen-24, res.err, st.pos, frameLen)
+		}
+		res2 := decode(st, wire.ProtocolVersion, bsvnet)
+		got, _ := res2.msg.(*wire.MsgPing)
+		if res2.hang || res2.pan != nil || res2.err != nil || got == nil || got.Nonce != ping.Nonce {
+			r.Fail("C14", "stream-lost-after-refused-frame", fmt.Sprintf("%s|len%%10240=%d", kind, (frameLen-24)%10240), "after a refused %s frame (%d payload bytes) the ping that follows it on the stream was not decoded: err=%v msg=%v", kind, frameLen-24, res2.err, res2.msg)
+		}
+		r.Probe("message-after-refused-frame")
+	}
+	frame = frame[:frameLen]
 	r.Logf("fault %s on %s pver=%d len=%d -> err=%v msg=%v", kind, cmd, pver, len(frame), res.err, res.msg != nil)
 	sig := kind + "|" + cmd
 	if res.hang {
